@@ -6,8 +6,10 @@ package main
 import (
 	z "github.com/Oudwins/zog"
 
+	"encoding/json"
 	"fmt"
 	"reflect"
+	"sort"
 	"strings"
 
 	"verif/harness/internal/eng"
@@ -88,9 +90,10 @@ func permuteFields(n *eng.Node, r *rng.R) *eng.Node {
 // success, the destination must be identical on every run.
 func streamOrder(seed uint64, n int, variant string) (*Summary, error) {
 	sum := newSummary("order", seed)
-	sum.Rule = "engine-stream cases with at least one struct of arity >= 2, each executed 12 times (6 with permuted schema-map insertion order); non-trivial = at least 2 distinct field visit orders were observed for the case; distinct = distinct case line"
+	sum.Rule = "engine-stream cases with at least one struct of arity >= 2, each executed 12 times (6 with permuted schema-map insertion order); non-trivial = at least 2 distinct field visit orders were observed for the case; distinct = distinct case line; plus ~130 input SHAPES through the dyn schema (maps with interface / named keys whose keys of different dynamic type spell the same field, at top level and nested; every value of the dyn zoo), each call repeated 6-48 times and compared run to run"
 	root := rng.New(seed)
 	distinct := map[string]bool{}
+	rerunProbe(sum, seed)
 	for i := 0; i < n; i++ {
 		g := &eng.Gen{R: root.Fork()}
 		if variant == "noposts" || (variant == "" && i%2 == 0) {
@@ -366,4 +369,72 @@ func streamAlias(seed uint64, n int) (*Summary, error) {
 		}
 	}
 	return sum, nil
+}
+
+// rerunCanon: everything C09 speaks about for one call of the dyn schema — the issues (minus $first) and the destination.
+func rerunCanon(m z.ZogIssueMap, d *dDest) string {
+	keys := make([]string, 0, len(m))
+	for k := range m {
+		if k != "$first" {
+			keys = append(keys, k)
+		}
+	}
+	sort.Strings(keys)
+	var sb strings.Builder
+	for _, k := range keys {
+		sb.WriteString(k + ":")
+		for _, is := range m[k] {
+			fmt.Fprintf(&sb, " {%s %q %s %q}", is.Code, is.Path, is.Dtype, is.Message)
+		}
+		sb.WriteString(";")
+	}
+	js, _ := json.Marshal(d)
+	return sb.String() + " dest=" + string(js)
+}
+
+// rerunProbe (C09): input SHAPES whose own key order could leak into the result — maps with interface or
+// named keys, keys of different dynamic types spelling the same field, every value of the dyn zoo, at
+// top level and nested. The same call is repeated; issues and destination must be identical every time.
+func rerunProbe(sum *Summary, seed uint64) {
+	schema := dynSchema()
+	var inputs []any
+	for _, f := range []string{"name", "age", "tags", "ok"} {
+		good := map[string]any{"name": "alice", "age": 7, "tags": []any{"a"}, "ok": true}[f]
+		bad := map[string]any{"name": "", "age": -3, "tags": []any{""}, "ok": "zz"}[f]
+		inputs = append(inputs,
+			map[any]any{f: good, dNamedStr(f): bad},
+			map[any]any{dNamedStr(f): good, f: bad},
+			map[dNamedStr]any{dNamedStr(f): good},
+			map[string]any{"name": "bob", "inner": map[any]any{"city": "A", dNamedStr("city"): ""}},
+			map[string]any{"name": "bob", "list": []any{map[any]any{"a": 1, dNamedStr("a"): "zz"}}},
+		)
+	}
+	inputs = append(inputs,
+		map[any]any{1: "a", "1": "b", int64(1): "c"},
+		map[any]any{"name": "alice", dNamedStr("name"): "b", dStringer{"name"}: "c", nil: "d"},
+		map[any]any{true: 1, "true": 2},
+	)
+	inputs = append(inputs, dynZoo()...)
+	for i, in := range inputs {
+		runs := 6
+		if i < 23 {
+			runs = 48
+		}
+		var first string
+		func() {
+			defer func() { recover() }() // panics are C06's business (S-dyn)
+			sum.Evaluations++
+			for k := 0; k < runs; k++ {
+				var d dDest
+				got := rerunCanon(schema.Parse(in, &d), &d)
+				if k == 0 {
+					first = got
+				} else if got != first {
+					sum.addViolation("C09", Mismatch{Case: fmt.Sprintf("rerun input[%d] %T %v", i, in, in), What: fmt.Sprintf("results differ between runs of the same call:\nrun 0: %s\nrun %d: %s", first, k, got)})
+					return
+				}
+			}
+			sum.Hist["rerun_shapes_stable"]++
+		}()
+	}
 }
